@@ -151,8 +151,12 @@ class SharedMemoryFileBufferedCollection(FileBufferedCollection):
                         # not written keeps its metadata: if somebody else has
                         # changed the file in the meantime, a later
                         # modification must still be detected as a conflict.
-                        cached_data["metadata"] = self._get_file_metadata()
+                        # The flag is cleared first: the size has already been
+                        # decremented above, and if querying the metadata
+                        # fails the entry must not be counted down again by
+                        # the next flush.
                         cached_data["modified"] = False
+                        cached_data["metadata"] = self._get_file_metadata()
         else:
             # If this object is still buffered _and_ this wasn't a force flush,
             # that implies a nesting of buffered contexts in which another
